@@ -105,6 +105,9 @@ func (pa *pkgAn) confinedTypes(cands map[string]*types.TypeName) map[string]stri
 			if _, ok := p.(*ast.GoStmt); ok {
 				return true
 			}
+			if ce, ok := p.(*ast.CallExpr); ok && pa.timerSpawn(ce) != nil {
+				return true
+			}
 		}
 		return false
 	}
